@@ -299,6 +299,12 @@ func checkWalk(c walkCase) *mc.Viol {
 	mag := modulus(c.Bits, 3)
 	N := new(big.Int).SetBytes(mag)
 	key := &rsa.PublicKey{N: N, E: 65537}
+	type decoded struct {
+		key *rsa.PublicKey
+		n   *big.Int
+		e   int
+	}
+	var earlier []decoded
 	for step := 0; step < 6; step++ {
 		if step > 0 {
 			N.Add(N, big.NewInt(2)) // in place: the same *big.Int
@@ -323,6 +329,13 @@ func checkWalk(c walkCase) *mc.Viol {
 			if err != nil || got.N.Cmp(N) != 0 || got.E != key.E {
 				return &mc.Viol{Sig: "decoding does not invert encoding for a key object refilled in place", What: fmt.Sprintf("bits=%d step %d: %v", c.Bits, step, err)}
 			}
+			// keys decoded earlier are the caller's: decoding another key must not change them
+			for _, e := range earlier {
+				if e.key.N.Cmp(e.n) != 0 || e.key.E != e.e {
+					return &mc.Viol{Sig: "a token key decoded earlier changes when another key is decoded", What: fmt.Sprintf("bits=%d step %d", c.Bits, step)}
+				}
+			}
+			earlier = append(earlier, decoded{got, new(big.Int).Set(got.N), got.E})
 		}
 	}
 	return nil
